@@ -7,27 +7,35 @@
   (PyndlModel/Filter.lean).  Every theorem is for an arbitrary character type
   `χ` with decidable equality and arbitrary separators `tab us : χ` (the
   idempotence laws need `tab ≠ us`), every file (list of lines), every rule on
-  both sides, every chunk size ≥ 1.  Independence of `n_jobs` is the ordering
-  guarantee of `Pool.imap` (trusted; sampled by the harness for 1..8).
+  both sides, every chunk size ≥ 1.
+
+  `n_jobs` is ABSENT from the model: `filterEventFile` has no such parameter, so
+  every theorem below is independent of `n_jobs` by construction, not by proof.
+  What stands behind that is the ordering guarantee of `Pool.imap` (results are
+  yielded in submission order whichever worker finishes first) — trusted, listed
+  in DESIGN §2, sampled by the harness for `n_jobs` 1..8.  What IS modelled and
+  proved is the chunking of `imap` (`imap_eq_map`, `chunk_independent`).
+
+  Hypotheses carried by theorems here (for DESIGN §7): `1 ≤ chunk` (Python's
+  `imap` raises `ValueError` for `chunksize < 1`: `chunk_zero_raises`),
+  `tab ≠ us` (idempotence laws), `WellFormed tab l` for every event line
+  (`filter_order`; the other case is `malformed_raises`), complement relative
+  to the tokens of the file (`keep_eq_remove_compl`), `[] ∉ S` (`map_id_eq_keep`).
+
+  Lemmas that merely restate a definition are at the end under
+  "lemmas (not property theorems)".
 -/
 import PyndlProofs.Filter
 import PyndlModel.Generated
 
 set_option linter.unusedSimpArgs false
 set_option linter.unusedVariables false
+set_option linter.unusedSectionVars false
 
 namespace Pyndl.C10
 open Pyndl Pyndl.Filter
 
 variable {χ : Type} [DecidableEq χ]
-
-/-- the separators the model is run with are the ones in the source
-    (`line.strip('\n').split("\t")`, `cues.split("_")`, read by the extractor on
-    every run) and they differ, as the idempotence laws require. -/
-theorem seps_match_source :
-    Generated.filterColSep.toList = [colSep] ∧ Generated.filterTokSep.toList = [tokSep]
-      ∧ colSep ≠ tokSep := by
-  decide
 
 /-- **`imap` is `map`** for every chunk size ≥ 1: chunking the lines, mapping
     each chunk and concatenating in submission order is the plain map. -/
@@ -69,20 +77,6 @@ theorem filter_order (tab us : χ) (ca oa : SideArgs χ) (rc ro : Rule χ)
   rw [hc, ho]
   exact filterFile_ok tab us rc ro chunk hn header events hw
 
-/-- … hence the kept events are the image of a *sublist* of the input events,
-    in the same order: nothing is reordered, duplicated or invented. -/
-theorem filter_sublist (tab us : χ) (rc ro : Rule χ) (events : List (Str χ)) :
-    ∃ kept, List.Sublist kept events ∧
-      events.filterMap (applyRules tab us rc ro)
-        = kept.map (fun l => (applyRules tab us rc ro l).getD []) := by
-  refine ⟨events.filter (fun l => (applyRules tab us rc ro l).isSome), List.filter_sublist, ?_⟩
-  induction events with
-  | nil => rfl
-  | cons l ls ih =>
-    cases hl : applyRules tab us rc ro l with
-    | none => simp [List.filterMap_cons, List.filter_cons, hl, ih]
-    | some y => simp [List.filterMap_cons, List.filter_cons, hl, ih]
-
 /-- a malformed event line (not exactly two columns) anywhere ⇒ `ValueError`
     for every chunk size, nothing is returned. -/
 theorem malformed_raises (tab us : χ) (ca oa : SideArgs χ) (chunk : Nat)
@@ -114,30 +108,144 @@ theorem drop_iff_no_cue (tab us : χ) (rc ro : Rule χ) (line c o : Str χ)
   | nil => simp
   | cons t ts => simp
 
-/-- **keeping a set = removing its complement**, on the cue side, the outcome
-    side or both, whatever the other arguments are. -/
-theorem keep_eq_remove_compl (tab us : χ) (S C : List (Str χ)) (h : ∀ t, t ∈ S ↔ t ∉ C)
+/-- the earlier form of `keep_eq_remove_compl` asked for `∀ t, t ∈ S ↔ t ∉ C`
+    over ALL strings.  No two finite lists satisfy that (a string longer than
+    every member of `S ++ C` is in neither), so the theorem said nothing. -/
+theorem no_global_complement [Inhabited χ] (S C : List (Str χ)) : ¬ ∀ t, t ∈ S ↔ t ∉ C := by
+  intro h
+  -- a string strictly longer than every member of `S ++ C`
+  let n := ((S ++ C).map List.length).foldr max 0
+  have hlen : ∀ t ∈ S ++ C, t.length ≤ n := by
+    intro t ht
+    have : ∀ (L : List (Str χ)), t ∈ L → t.length ≤ (L.map List.length).foldr max 0 := by
+      intro L
+      induction L with
+      | nil => intro h; cases h
+      | cons x L ih =>
+        intro h
+        simp only [List.map_cons, List.foldr_cons]
+        rcases List.mem_cons.1 h with rfl | h
+        · exact Nat.le_max_left _ _
+        · exact Nat.le_trans (ih h) (Nat.le_max_right _ _)
+    exact this _ ht
+  let big : Str χ := List.replicate (n + 1) default
+  have hbS : big ∉ S := fun hm => by
+    have := hlen big (List.mem_append_left _ hm)
+    simp [big] at this
+    omega
+  have hbC : big ∉ C := fun hm => by
+    have := hlen big (List.mem_append_right _ hm)
+    simp [big] at this
+    omega
+  exact hbS ((h big).2 hbC)
+
+/-- **keeping a set = removing its complement**, the complement being taken
+    within the tokens that OCCUR in the file: if, among the tokens of the cue
+    column (`cueTokens`: the `us`-separated pieces of the first column of every
+    two-column event line), `C` holds exactly those that are not in `S`, then
+    `keep_cues=S` and `remove_cues=C` produce the same output file — or the same
+    error — whatever the outcome-side arguments `other`, the chunk size and the
+    file are (also for malformed files, an empty file, chunk size 0).  The same
+    on the outcome side with `outcomeTokens`, and on both sides at once.
+    The hypotheses are decidable (`decide` in the example below).
+
+    (Replaces the vacuous form, see `no_global_complement`.  `n_jobs` does not
+    occur: the model has no such parameter — see the file header.) -/
+theorem keep_eq_remove_compl (tab us : χ) (S C : List (Str χ))
+    (other : SideArgs χ) (chunk : Nat) (lines : List (Str χ)) :
+    ((∀ t ∈ cueTokens tab us lines, (t ∈ S ↔ t ∉ C)) →
+      filterEventFile tab us ⟨some S, none, none⟩ other chunk lines
+        = filterEventFile tab us ⟨none, some C, none⟩ other chunk lines) ∧
+    ((∀ t ∈ outcomeTokens tab us lines, (t ∈ S ↔ t ∉ C)) →
+      filterEventFile tab us other ⟨some S, none, none⟩ chunk lines
+        = filterEventFile tab us other ⟨none, some C, none⟩ chunk lines) := by
+  constructor
+  · intro h
+    unfold filterEventFile
+    simp only [selectRule_keep, selectRule_remove]
+    cases selectRule other with
+    | error e => rfl
+    | ok r =>
+      exact filterFile_congr tab us _ _ _ _ chunk lines
+        (fun l hl c o hs => keep_apply_eq_remove_on S C _
+          (fun t ht => h t (mem_cueTokens tab us lines l c o hl hs t ht)))
+        (fun _ _ _ _ _ => rfl)
+  · intro h
+    unfold filterEventFile
+    simp only [selectRule_keep, selectRule_remove]
+    cases selectRule other with
+    | error e => rfl
+    | ok r =>
+      exact filterFile_congr tab us _ _ _ _ chunk lines
+        (fun _ _ _ _ _ => rfl)
+        (fun l hl c o hs => keep_apply_eq_remove_on S C _
+          (fun t ht => h t (mem_outcomeTokens tab us lines l c o hl hs t ht)))
+
+/-- … on both sides at once: keep `S` / keep `T` = remove `C` / remove `D`. -/
+theorem keep_eq_remove_compl_both (tab us : χ) (S C T D : List (Str χ))
+    (chunk : Nat) (lines : List (Str χ))
+    (hc : ∀ t ∈ cueTokens tab us lines, (t ∈ S ↔ t ∉ C))
+    (ho : ∀ t ∈ outcomeTokens tab us lines, (t ∈ T ↔ t ∉ D)) :
+    filterEventFile tab us ⟨some S, none, none⟩ ⟨some T, none, none⟩ chunk lines
+      = filterEventFile tab us ⟨none, some C, none⟩ ⟨none, some D, none⟩ chunk lines := by
+  rw [((keep_eq_remove_compl tab us S C ⟨some T, none, none⟩ chunk lines).1 hc),
+      ((keep_eq_remove_compl tab us T D ⟨none, some C, none⟩ chunk lines).2 ho)]
+
+/-- hypothesis-free form: the complement of `S` within the file's own tokens can
+    always be written down — it is `(cueTokens …).filter (· ∉ S)` — and removing
+    it is keeping `S`. -/
+theorem keep_eq_remove_own_compl (tab us : χ) (S : List (Str χ))
     (other : SideArgs χ) (chunk : Nat) (lines : List (Str χ)) :
     filterEventFile tab us ⟨some S, none, none⟩ other chunk lines
-        = filterEventFile tab us ⟨none, some C, none⟩ other chunk lines ∧
+      = filterEventFile tab us
+          ⟨none, some ((cueTokens tab us lines).filter (fun t => decide (t ∉ S))), none⟩
+          other chunk lines ∧
     filterEventFile tab us other ⟨some S, none, none⟩ chunk lines
-        = filterEventFile tab us other ⟨none, some C, none⟩ chunk lines := by
-  have hfun : (Rule.keep S).apply = (Rule.remove C).apply :=
-    funext (keep_apply_eq_remove S C h)
-  have hline : ∀ r : Rule χ,
-      filterLine tab us (.keep S) r = filterLine tab us (.remove C) r ∧
-      filterLine tab us r (.keep S) = filterLine tab us r (.remove C) := by
-    intro r
-    constructor <;> funext l <;> simp only [filterLine, processColumns, hfun]
-  unfold filterEventFile
-  simp only [selectRule_keep, selectRule_remove]
+      = filterEventFile tab us other
+          ⟨none, some ((outcomeTokens tab us lines).filter (fun t => decide (t ∉ S))), none⟩
+          chunk lines := by
   constructor
-  · cases selectRule other with
-    | error e => rfl
-    | ok r => simp only [filterFile, (hline r).1]
-  · cases selectRule other with
-    | error e => rfl
-    | ok r => simp only [filterFile, (hline r).2]
+  · refine (keep_eq_remove_compl tab us S _ other chunk lines).1 ?_
+    intro t ht
+    simp only [List.mem_filter, ht, true_and, decide_eq_true_eq, Decidable.not_not]
+  · refine (keep_eq_remove_compl tab us S _ other chunk lines).2 ?_
+    intro t ht
+    simp only [List.mem_filter, ht, true_and, decide_eq_true_eq, Decidable.not_not]
+
+/-- **non-vacuity of `keep_eq_remove_compl`: the theorem itself applied** to the
+    file `[9] / 2_3⇥5_6 / 3⇥5 / 2_2⇥` (characters are `Nat`s: tab = 0, `_` = 1).
+    Cue tokens that occur: 2, 3, 3, 2, 2; `S = {2, 7}`, `C = {3, 8}` are
+    complementary among them (7 and 8 do not occur; globally they are not
+    complementary: 9 is in neither).  Both hypotheses are discharged by
+    `decide`, the conclusion is the theorem's. -/
+example :
+    filterEventFile 0 1 ⟨some [[2], [7]], none, none⟩ ⟨none, some [[5]], none⟩ 2
+        [[9], [2, 1, 3, 0, 5, 1, 6], [3, 0, 5], [2, 1, 2, 0]]
+      = filterEventFile 0 1 ⟨none, some [[3], [8]], none⟩ ⟨none, some [[5]], none⟩ 2
+        [[9], [2, 1, 3, 0, 5, 1, 6], [3, 0, 5], [2, 1, 2, 0]] :=
+  (keep_eq_remove_compl (χ := Nat) 0 1 [[2], [7]] [[3], [8]] ⟨none, some [[5]], none⟩ 2
+    [[9], [2, 1, 3, 0, 5, 1, 6], [3, 0, 5], [2, 1, 2, 0]]).1 (by decide +kernel)
+
+/-- … outcome side: outcome tokens 5, 6, 5, "" ; keep `{6, ""}` = remove `{5}`. -/
+example :
+    filterEventFile 0 1 ⟨none, none, none⟩ ⟨some [[6], []], none, none⟩ 1
+        [[9], [2, 1, 3, 0, 5, 1, 6], [3, 0, 5], [2, 1, 2, 0]]
+      = filterEventFile 0 1 ⟨none, none, none⟩ ⟨none, some [[5]], none⟩ 1
+        [[9], [2, 1, 3, 0, 5, 1, 6], [3, 0, 5], [2, 1, 2, 0]] :=
+  (keep_eq_remove_compl (χ := Nat) 0 1 [[6], []] [[5]] ⟨none, none, none⟩ 1
+    [[9], [2, 1, 3, 0, 5, 1, 6], [3, 0, 5], [2, 1, 2, 0]]).2 (by decide +kernel)
+
+/-- … and what both sides are (so the equation is not `error = error`), and the
+    tokens that occur. -/
+example :
+    cueTokens 0 1 [[9], [2, 1, 3, 0, 5, 1, 6], [3, 0, 5], [2, 1, 2, 0]] = [[2], [3], [3], [2], [2]] ∧
+    outcomeTokens 0 1 [[9], [2, 1, 3, 0, 5, 1, 6], [3, 0, 5], [2, 1, 2, 0]] = [[5], [6], [5], []] ∧
+    filterEventFile 0 1 ⟨none, some [[3], [8]], none⟩ ⟨none, some [[5]], none⟩ 2
+        [[9], [2, 1, 3, 0, 5, 1, 6], [3, 0, 5], [2, 1, 2, 0]] = .ok [[9], [2, 0, 6], [2, 1, 2, 0]] ∧
+    -- the hypothesis is needed: with 3 ∈ S ∩ C the two calls differ
+    filterEventFile 0 1 ⟨some [[2], [3]], none, none⟩ ⟨none, none, none⟩ 1 [[9], [3, 0, 5]]
+      ≠ filterEventFile 0 1 ⟨none, some [[3]], none⟩ ⟨none, none, none⟩ 1 [[9], [3, 0, 5]] := by
+  decide +kernel
 
 /-- **renaming with the identity map on `S` = keeping `S`**, for `S` without
     the empty token (a map drops tokens renamed to `''`). Stated for any map
@@ -165,12 +273,6 @@ theorem map_id_eq_keep (tab us : χ) (m : List (Str χ × Str χ)) (S : List (St
   · cases selectRule other with
     | error e => rfl
     | ok r => simp only [filterFile, (hline r).2]
-
-/-- the literal identity dict `{t: t for t in S}` satisfies the hypothesis of
-    `map_id_eq_keep`. -/
-theorem idMap_is_identity (S : List (Str χ)) (t : Str χ) :
-    lookupD (idMap S) t = if t ∈ S then t else [] :=
-  lookupD_idMap S t
 
 /-- **filtering twice = filtering once** for every combination of keep / remove /
     all on the two sides: the second pass reads the *text* the first pass wrote
@@ -246,12 +348,26 @@ theorem constructor_raises (tab us : χ) (ca oa : SideArgs χ) (chunk : Nat) (li
     | error e => rw [selectRule_err_value ca e hc]
     | ok rc => simp only []; rw [(selectRule_error_iff oa).2 h]
 
+/-- `chunksize = 0`: `Pool.imap` raises `ValueError` (CPython
+    `multiprocessing/pool.py`: "Chunksize must be 1+"), whatever the rules and
+    the file are — the branch the `1 ≤ chunk` hypotheses exclude. -/
+theorem chunk_zero_raises (tab us : χ) (ca oa : SideArgs χ) (lines : List (Str χ)) :
+    filterEventFile tab us ca oa 0 lines = .error .value := by
+  unfold filterEventFile
+  cases hc : selectRule ca with
+  | error e => rw [selectRule_err_value ca e hc]
+  | ok rc =>
+    cases ho : selectRule oa with
+    | error e => rw [selectRule_err_value oa e ho]
+    | ok ro => simp [filterFile]
+
 /-! Non-vacuity (characters are `Nat`s: tab = 0, `_` = 1, letters ≥ 2).
     File: header `[9]`, events `2_3\t5_6`, `3\t5`, `2_2\t`; keep cue 2, remove
     outcome 5.  The second event loses all cues and is dropped, the first is
     rewritten, the third (no outcomes) is kept; chunk sizes 1, 2, 7 agree; the
-    hypotheses of `filter_order`, `drop_iff_no_cue`, `keep_eq_remove_compl`,
-    `map_id_eq_keep`, `select_idem` are met by these values. -/
+    hypotheses of `filter_order`, `drop_iff_no_cue`, `map_id_eq_keep`,
+    `select_idem` are met by these values (`keep_eq_remove_compl` has its own
+    examples, which apply the theorem). -/
 example :
     let lines : List (Str Nat) := [[9], [2, 1, 3, 0, 5, 1, 6], [3, 0, 5], [2, 1, 2, 0]]
     let ca : SideArgs Nat := ⟨some [[2]], none, none⟩
@@ -281,5 +397,40 @@ example :
     filterEventFile 0 1 ⟨none, none, some (idMap [[]])⟩ ⟨none, none, none⟩ 1 [[9], [0, 5]]
       = .ok [[9]] := by
   decide +kernel
+
+/-! ### lemmas (not property theorems)
+
+`rfl` / `decide`-level facts and facts that hold for any `filterMap`; kept
+because other files and the harness refer to them.  Clauses 2–5 of
+`constructor_table` above are of the same kind (definitional); its first clause
+(`ValueError` iff at least two arguments are given) is the property. -/
+
+/-- (definitional) the separators the model is run with are the ones in the source
+    (`line.strip('\n').split("\t")`, `cues.split("_")`, read by the extractor on
+    every run) and they differ, as the idempotence laws require. -/
+theorem seps_match_source :
+    Generated.filterColSep.toList = [colSep] ∧ Generated.filterTokSep.toList = [tokSep]
+      ∧ colSep ≠ tokSep := by
+  decide
+
+/-- (holds for every `filterMap`) the kept events are the image of a *sublist* of the input events,
+    in the same order: nothing is reordered, duplicated or invented. -/
+theorem filter_sublist (tab us : χ) (rc ro : Rule χ) (events : List (Str χ)) :
+    ∃ kept, List.Sublist kept events ∧
+      events.filterMap (applyRules tab us rc ro)
+        = kept.map (fun l => (applyRules tab us rc ro l).getD []) := by
+  refine ⟨events.filter (fun l => (applyRules tab us rc ro l).isSome), List.filter_sublist, ?_⟩
+  induction events with
+  | nil => rfl
+  | cons l ls ih =>
+    cases hl : applyRules tab us rc ro l with
+    | none => simp [List.filterMap_cons, List.filter_cons, hl, ih]
+    | some y => simp [List.filterMap_cons, List.filter_cons, hl, ih]
+
+/-- (definitional) the literal identity dict `{t: t for t in S}` satisfies the hypothesis of
+    `map_id_eq_keep`. -/
+theorem idMap_is_identity (S : List (Str χ)) (t : Str χ) :
+    lookupD (idMap S) t = if t ∈ S then t else [] :=
+  lookupD_idMap S t
 
 end Pyndl.C10
